@@ -284,3 +284,63 @@ def _splice(f, bi, g):
                                    "span": span}],
                         "term": {"k": "goto", "target": t["target"]}, "tspan": span, "cleanup": False})
     b["term"] = {"k": "goto", "target": boff}
+
+
+FN_CALL_KEYS = ("core::ops::function::Fn::call", "core::ops::function::FnMut::call_mut")
+
+
+def inline_closure_calls(fns):
+    """`let is_set = |i| ..; is_set(a) && is_set(b)`: a direct call of a local closure (Fn::call / FnMut::call_mut on a
+    reference to the closure value) is replaced by a copy of the closure body, like a private helper.  The closure's
+    environment parameter receives the reference the call passes, its other parameters the components of the argument
+    tuple.  Closures handed to iterator adaptors or threads are not affected (they are not called by the body itself).
+    Returns {caller path: [closure paths]}"""
+    by_path = {f["path"]: f for f in fns}
+    done = {}
+    for f in fns:
+        if f["kind"] not in ("Fn", "AssocFn", "Closure"):
+            continue
+        for _round in range(2):
+            nblocks = len(f["blocks"])
+            changed = False
+            for bi in range(nblocks):
+                b = f["blocks"][bi]
+                if b.get("cleanup"):
+                    continue
+                t = b["term"]
+                if t["k"] != "call" or t["target"] is None or len(t["args"]) != 2:
+                    continue
+                fo = t["func"]
+                ty = fo.get("ty") or {}
+                if not (fo.get("k") == "const" and ty.get("k") == "fndef" and ty.get("path") in FN_CALL_KEYS):
+                    continue
+                targs = ty.get("args") or []
+                if not targs or targs[0].get("k") != "closure":
+                    continue
+                g = by_path.get(targs[0].get("path"))
+                if g is None or g is f or len(g["blocks"]) > MAX_BLOCKS or _has_unsafe_ops(g):
+                    continue
+                a0, a1 = t["args"]
+                if a0.get("k") not in ("copy", "move") or a0["place"]["proj"]:
+                    continue
+                envty = f["locals"][a0["place"]["local"]]["ty"]
+                if envty.get("s") != g["locals"][1]["ty"].get("s"):
+                    continue        # by-value call of a closure whose body takes a reference (or the reverse): a shim is involved
+                nparams = g["arg_count"] - 1
+                if a1.get("k") in ("copy", "move") and not a1["place"]["proj"]:
+                    tl = a1["place"]["local"]
+                    params = [{"k": "move", "place": {"local": tl, "proj": [
+                        {"k": "field", "idx": k, "name": str(k), "ty": g["locals"][2 + k]["ty"]}]}} for k in range(nparams)]
+                elif nparams == 0:
+                    params = []
+                else:
+                    continue
+                call = dict(t)
+                call["args"] = [a0] + params
+                b["term"] = call
+                _splice(f, bi, g)
+                done.setdefault(f["path"], []).append(g["path"])
+                changed = True
+            if not changed:
+                break
+    return done
